@@ -216,6 +216,13 @@ class _UdpSock:
             raise SelectSpin(f'sendto() called {ep.step_sendto_calls} times within one loop turn (last destination {dst[0]}): the loop never goes back to select()')
         if err is not None:
             ep.step_faults.append(('sendto', k, err))
+            if err == 'gaierror':
+                # what sendto() raises for an address it cannot resolve (an IPv6 link-local peer whose interface is gone): errno is NEGATIVE (EAI_NONAME = -2)
+                raise _socket.gaierror(-2, 'Name or service not known')
+            if err == 'no-errno':
+                raise OSError('injected sendto failure without an error number')
+            if err == 'timeout':
+                raise TimeoutError('injected sendto timeout')
             raise OSError(err, 'injected sendto failure')
         ep.outbox.append((str(self.addr), str(dst[0]), bytes(data)))
         return len(data)
